@@ -108,7 +108,10 @@ fn run_schedule(spec: &Spec) -> (Duration, bool, String, bool) {
         // can never be the reason it is not served
         let t0 = Instant::now();
         let good = async {
-            let mut c = McClient::connect(running.addr, Some("127.0.0.3".parse().unwrap())).await.map_err(|e| e.to_string())?;
+            // with PROXY protocol the well-behaved client arrives through the same load balancer (peer) as the
+            // hostile ones and differs in its announced source; without it, it is another peer
+            let peer = if spec.proxy { "127.0.0.2" } else { "127.0.0.3" };
+            let mut c = McClient::connect(running.addr, Some(peer.parse().unwrap())).await.map_err(|e| e.to_string())?;
             if spec.proxy {
                 c.send_raw(&proxy_v2("203.0.113.77:7777".parse().unwrap(), running.addr)).await.map_err(|e| e.to_string())?;
             }
